@@ -13,7 +13,7 @@ use crate::alloc::arena;
 use crate::cc;
 use crate::gen::{self, CConfig};
 use crate::harness;
-use crate::host::{install_signal_handlers, load_so, vtable, Loaded, VTable};
+use crate::host::{arm_watchdog, install_signal_handlers, load_so, vtable, Loaded, VTable, CASE_CPU_SECONDS};
 use crate::hparse::{self, CTy, Header, Proto};
 use crate::world::SYNC;
 use serde_json::{json, Value};
@@ -868,6 +868,7 @@ pub fn child_run(b: &ResBuild, hists: &[Vec<Act>], skip: &BTreeSet<usize>, progr
         }
         unsafe { *progress = i as u32 };
         h.problems.clear();
+        arm_watchdog(CASE_CPU_SECONDS);
         let (c0, d0) = (h.calls, h.dtor_runs_seen);
         h.run_history(hist);
         outcomes.insert(format!("calls={} dtors={} problems={}", h.calls - c0, h.dtor_runs_seen - d0, h.problems.len()));
@@ -880,6 +881,7 @@ pub fn child_run(b: &ResBuild, hists: &[Vec<Act>], skip: &BTreeSet<usize>, progr
             }
         }
     }
+    arm_watchdog(0);
     let out: Vec<Value> = out.into_iter().map(|(c, (i, m, n))| json!([i, c, m, n])).collect();
     serde_json::to_vec(&json!({"problems": out, "calls": h.calls, "dtor_runs": h.dtor_runs_seen,
                                "imports_missing": missing, "outcomes": outcomes.into_iter().collect::<Vec<_>>()}))
